@@ -223,6 +223,16 @@ def c05(ctx):
 def c06(ctx):
     core.cdrv_run(ctx, "api/cdrv-asm", "asm", "native", "api", scale=1.0)
     core.cdrv_run(ctx, "api/cdrv-int", "int", "native", "api", scale=1.0)
+    # size classes no op-script reaches: one call that moves more than 2^32 bytes (one at a time:
+    # each probe holds 4-8 GiB)
+    core.cdrv_big(ctx, "huge/finalize-2^32+10", "asm", "finalize", (1 << 32) + 10)
+    core.cdrv_big(ctx, "huge/update-2^33", "asm", "update", 1 << 33)
+    if ctx.thorough:
+        core.cdrv_big(ctx, "huge/finalize_seek-2^32+4097", "int", "finalize", (1 << 32) + 4097, seek=(1 << 35) - 17)
+        core.cdrv_big(ctx, "huge/finalize-2^33", "asm", "finalize", 1 << 33)
+        core.cdrv_big(ctx, "huge/update-2^32+1025", "int", "update", (1 << 32) + 1025)
+        core.cdrv_big(ctx, "huge/update-2^33+2^31+5", "asm", "update", (1 << 33) + (1 << 31) + 5)
+        core.cdrv_big(ctx, "huge/update-2^34", "int", "update", 1 << 34)
 
 
 def c07(ctx):
@@ -231,6 +241,11 @@ def c07(ctx):
     kernel_sweeps(ctx, 2.0 if t else 0.5)
     core.cdrv_run(ctx, "api/cdrv-asm", "asm", "native", "api", scale=4.0 if t else 0.5)
     core.cdrv_run(ctx, "api/cdrv-int", "int", "native", "api", scale=4.0 if t else 0.5)
+    # 1b. the assembly kernels again while a timer signal handler keeps running on the same stack
+    # (stack discipline: nothing live below the red zone / below rsp)
+    so = core.cdrv_run(ctx, "kernels/cdrv-asm-sigstorm", "asm", "native", "kernels", scale=1.0 if t else 0.25, env_extra={"CDRV_SIGSTORM": "40"})
+    if not so["classes"].get("storm_signals_inside_monitored_calls"):
+        ctx.note_inconclusive("signal storm: no signal was delivered inside a monitored call")
     # 2. Rust API level: every update slice / fill destination flush against a guard page
     ctx.mon("rust-api-guard/c02", "asm", "debug", ["c02", "--guard", "1", "--scale", "2" if t else "0.3"], adopt=lambda sig: ("canary" in sig or "fatal" in sig))
     ctx.mon("rust-api-guard/c03", "asm", "debug", ["c03", "--guard", "1", "--scale", "2" if t else "0.3"], adopt=lambda sig: ("canary" in sig or "fatal" in sig))
